@@ -1,7 +1,7 @@
 package transport
 
 //vcheck:init github.com/lni/dragonboat/v4/internal/settings,github.com/lni/dragonboat/v4/raftpb,github.com/lni/dragonboat/v4/internal/fileutil,github.com/lni/dragonboat/v4/internal/server,github.com/lni/dragonboat/v4/internal/rsm,github.com/lni/dragonboat/v4/internal/transport
-//vcheck:bounds chunks: sender chunk size set to 4 (arithmetic lemma, file sizes 1..13) or 1040 (end-to-end, so that the 1 KiB header fits the first chunk); one snapshot of 2-3 chunks (8 symbolic payload bytes, optional external file of 3 symbolic bytes); one perturbation per run (drop / duplicate / swap / foreign sender / wrong deployment id / wrong binary version / corrupt byte / restart from chunk 0) and one symbolic placement of the timeout ticks; two streams with different indexes for the non-interference lemma
+//vcheck:bounds chunks: sender chunk size set to 4 (arithmetic lemma, file sizes 1..13) or 1040 (end-to-end, so that the 1 KiB header fits the first chunk); one snapshot of 2-3 chunks (8 symbolic payload bytes, 0-2 external files of 3 and 2 symbolic bytes); one perturbation per run (drop / duplicate / swap / foreign sender / wrong deployment id / wrong binary version / corrupt byte / restart from chunk 0) and one symbolic placement of the timeout ticks; two streams with different indexes for the non-interference lemma
 //vcheck:stub chunks: file system = the real lni/vfs strict in-memory FS executed symbolically; CRC-32 as in C14; onReceive / confirm = recorders
 
 import (
@@ -83,7 +83,7 @@ func vNewReceiver(fs vfs.IFS, rec *vRecv) *Chunk {
 
 // vSourceSnapshot writes a real snapshot file (and optionally an external
 // file) on the sender's file system and returns the InstallSnapshot message.
-func vSourceSnapshot(fs vfs.IFS, index uint64, payload []byte, ext []byte) pb.Message {
+func vSourceSnapshot(fs vfs.IFS, index uint64, payload []byte, ext []byte, more ...[]byte) pb.Message {
 	if err := fs.MkdirAll("/src", 0755); err != nil {
 		panic(err)
 	}
@@ -118,6 +118,20 @@ func vSourceSnapshot(fs vfs.IFS, index uint64, payload []byte, ext []byte) pb.Me
 			panic(err)
 		}
 		m.Snapshot.Files = []*pb.SnapshotFile{{Filepath: efp, FileSize: uint64(len(ext)), FileId: 1}}
+		for i, x := range more {
+			efp := "/src/external-file-" + string(rune('2'+i))
+			f, err := fs.Create(efp)
+			if err != nil {
+				panic(err)
+			}
+			if _, err := f.Write(x); err != nil {
+				panic(err)
+			}
+			if err := f.Close(); err != nil {
+				panic(err)
+			}
+			m.Snapshot.Files = append(m.Snapshot.Files, &pb.SnapshotFile{Filepath: efp, FileSize: uint64(len(x)), FileId: uint64(2 + i)})
+		}
 	}
 	return m
 }
@@ -178,11 +192,18 @@ func VHarness_C15_ReceiverEndToEnd() {
 	for i := range payload {
 		payload[i] = vU8("p")
 	}
-	var ext []byte
-	if vBool("withExternalFile") {
+	var ext, ext2 []byte
+	nExt := vChoose("externalFiles", 3)
+	if nExt >= 1 {
 		ext = []byte{vU8("e"), vU8("e"), vU8("e")}
 	}
-	m := vSourceSnapshot(fs, 100, payload, ext)
+	var m pb.Message
+	if nExt == 2 {
+		ext2 = []byte{vU8("f"), vU8("f")}
+		m = vSourceSnapshot(fs, 100, payload, ext, ext2)
+	} else {
+		m = vSourceSnapshot(fs, 100, payload, ext)
+	}
 	chunks := vLoadChunks(fs, m)
 	n := len(chunks)
 	vAssert(n >= 2, "at-least-two-chunks")
@@ -321,8 +342,20 @@ func VHarness_C15_ReceiverEndToEnd() {
 				vAssert(dst[i] == srcMain[i], "final-main-file-identical")
 			}
 		}
+		vAssert(len(ss.Files) == nExt, "notification-lists-exactly-the-external-files")
+		for i := range ss.Files {
+			vAssert(ss.Files[i].FileId == uint64(i+1), "external-files-listed-once-in-order")
+		}
+		if nExt == 2 {
+			de, ok := vReadFile(fs, finalDir+"/external-file-2")
+			vAssert(ok && len(de) == len(ext2), "final-external-file-exists")
+			if ok && len(de) == len(ext2) {
+				for i := range de {
+					vAssert(de[i] == ext2[i], "final-external-file-identical")
+				}
+			}
+		}
 		if len(ext) > 0 {
-			vAssert(len(ss.Files) == 1, "external-file-listed")
 			de, ok := vReadFile(fs, finalDir+"/external-file-1")
 			vAssert(ok && len(de) == len(ext), "final-external-file-exists")
 			if ok && len(de) == len(ext) {
